@@ -2991,7 +2991,9 @@ impl RelationalEngine {
             for col in &indexed_columns {
                 if col == "_id" {
                     self.index_add(table, col, &Value::Int(row_id as i64), row_id)?;
-                } else if let Some(value) = values.get(col) {
+                } else {
+                    // A nullable column omitted from the insert is stored as NULL: index it as such
+                    let value = values.get(col).unwrap_or(&Value::Null);
                     self.index_add(table, col, value, row_id)?;
                 }
             }
@@ -2999,7 +3001,9 @@ impl RelationalEngine {
             for col in &btree_columns {
                 if col == "_id" {
                     self.btree_index_add(table, col, &Value::Int(row_id as i64), row_id)?;
-                } else if let Some(value) = values.get(col) {
+                } else {
+                    // A nullable column omitted from the insert is stored as NULL: index it as such
+                    let value = values.get(col).unwrap_or(&Value::Null);
                     self.btree_index_add(table, col, value, row_id)?;
                 }
             }
@@ -3253,8 +3257,10 @@ impl RelationalEngine {
                 });
             }
 
-            // Index gives us row IDs - take only what we need
-            let limited_ids: Vec<u64> = row_ids.into_iter().take(target_count).collect();
+            // Index candidates arrive in key order and may be a superset of the matches (they
+            // are re-filtered below), so they must not be truncated before filtering and
+            // ordering by row id.
+            let limited_ids: Vec<u64> = row_ids;
 
             let indices: Vec<usize> = limited_ids
                 .iter()
@@ -6776,7 +6782,9 @@ impl RelationalEngine {
         for col in &indexed_columns {
             if col == "_id" {
                 self.index_add(table, col, &Value::Int(row_id as i64), row_id)?;
-            } else if let Some(value) = values.get(col) {
+            } else {
+                // A nullable column omitted from the insert is stored as NULL: index it as such
+                let value = values.get(col).unwrap_or(&Value::Null);
                 self.index_add(table, col, value, row_id)?;
             }
         }
@@ -6785,7 +6793,9 @@ impl RelationalEngine {
         for col in &btree_columns {
             if col == "_id" {
                 self.btree_index_add(table, col, &Value::Int(row_id as i64), row_id)?;
-            } else if let Some(value) = values.get(col) {
+            } else {
+                // A nullable column omitted from the insert is stored as NULL: index it as such
+                let value = values.get(col).unwrap_or(&Value::Null);
                 self.btree_index_add(table, col, value, row_id)?;
             }
         }
@@ -6795,8 +6805,9 @@ impl RelationalEngine {
         for col in indexed_columns.iter().chain(btree_columns.iter()) {
             if col == "_id" {
                 index_entries.push((col.clone(), Value::Int(row_id as i64)));
-            } else if let Some(value) = values.get(col) {
-                index_entries.push((col.clone(), value.clone()));
+            } else {
+                let value = values.get(col).cloned().unwrap_or(Value::Null);
+                index_entries.push((col.clone(), value));
             }
         }
 
